@@ -26,7 +26,7 @@ RULE = ("one run = one seeded history on a Hypergraph or DirectedHypergraph with
         "every extraction is compared (full public observation, metadata included) with the selection recomputed from the source's "
         "own observation, the source is re-observed, and after every operation all *other* live objects must be unchanged.  "
         "Non-trivial: >= 3 state-changing ops, >= 1 removal before an extraction or >= 1 fork; distinct = event-log digests.")
-TIERS = {"quick": {"runs": 3000, "wall_cap": 240, "det_seeds": 12, "min_tests": 500},
+TIERS = {"quick": {"runs": 6000, "wall_cap": 240, "det_seeds": 12, "min_tests": 500},
          "thorough": {"runs": 80000, "wall_cap": 3000, "det_seeds": 40, "min_tests": 1500}}
 
 EXTRA = {"H": ["d_subnodes", "d_suborders", "d_subedges", "d_lcc"], "D": ["d_subedges"]}
